@@ -94,11 +94,15 @@ def regime_of(m, kdim, n):
     return "breakdown"
 
 
-def call(api, Anp, b, x0, m, tol, x0_shape="as_b"):
-    """Run the real code.  b: (n,) or (n,k); x0 None or same shape as b.  Returns (x, products with A in columns)."""
+def call(api, Anp, b, x0, m, tol, x0_shape="as_b", declared=None):
+    """Run the real code.  b: (n,) or (n,k); x0 None or same shape as b; declared: None | "SelfAdjoint" | "PSD" (the
+    operator carries that annotation).  Returns (x, products with A in columns)."""
     import cola
     from cola.linalg.inverse.gmres import GMRES, gmres
     op = _counting(Anp)
+    if declared is not None:
+        op = getattr(cola, declared)(op)
+        op.cols = 0
     with warnings.catch_warnings():
         warnings.simplefilter("ignore")
         with np.errstate(all="ignore"):
@@ -525,8 +529,8 @@ def wide_dtypes(job):
 
 
 def _wide_core(job):
-    return {k: job[k] for k in ("id", "mat", "template", "scale", "A", "b", "x0", "n", "kdim", "normal", "x0name", "cond",
-                                "rho2_0")}
+    return {k: job.get(k) for k in ("id", "mat", "template", "scale", "A", "b", "x0", "n", "kdim", "normal", "x0name", "cond",
+                                    "rho2_0", "symmetric", "definite")}
 
 
 def observe_wide(job, only=None):
@@ -542,25 +546,32 @@ def observe_wide(job, only=None):
         b = np.array(bint, dtype=npdt)
         x0 = np.array(x0int, dtype=npdt)
         slack = SCALED_C[dt] * float(np.finfo(npdt).eps) * job["cond"] * max(float(np.linalg.norm(np.array(bint, dtype=float))), rho0)
-        for api in ("gmres", "inv"):
+        # symmetric systems are also run as DECLARED operators (same exact optimum, same bound): SelfAdjoint through
+        # gmres(), PSD (definite ones) through inv()
+        plans = [(None, "gmres"), (None, "inv")]
+        if job.get("symmetric"):
+            plans.append(("SelfAdjoint", "gmres"))
+            if job.get("definite"):
+                plans.append(("PSD", "inv"))
+        for decl, api in plans:
             prev = None
             for m in range(1, n + 3):
-                if only is not None and ((dt, api) != tuple(only[:2]) or m not in only[2]):
+                if only is not None and ((dt, api) != tuple(only[:2]) or m not in only[2] or decl != (only[3] if len(only) > 3 else None)):
                     prev = None
                     continue
                 if m == 1:
                     prev = rho0
                 rec = job["per_m"][str(m)]
                 rho, _ = wide_expected(rec)
-                at = wide_attrs(job, dt, m, api, tol)
-                case = f"{job['id']} {dt} m={m} {api} tol={tol:g}"
+                at = dict(wide_attrs(job, dt, m, api, tol), declared=decl or "none")
+                case = f"{job['id']} {dt} m={m} {api} tol={tol:g}" + (f" declared {decl}" if decl else "")
                 rp = {"wide_job": dict(_wide_core(job), per_m={str(k): job["per_m"][str(k)] for k in {max(m - 1, 1), m}
                                                                if str(k) in job["per_m"]}),
-                      "m": m, "api": api, "dtype": dt}
+                      "m": m, "api": api, "dtype": dt, "declared": decl}
                 n_eval += 1
                 x0_arg = None if (job["x0name"] == "0" and api == "inv") else x0
                 try:
-                    x, cols = call(api, A, b, x0_arg, m, tol, "column")
+                    x, cols = call(api, A, b, x0_arg, m, tol, "column", declared=decl)
                 except Exception as e:  # noqa: BLE001
                     viol.append(Violation(PROP, "exception", case, dict(at, iterate="n/a", **common.exc_info(e)),
                                           f"{type(e).__name__}: {str(e)[:120]}", replay=rp))
@@ -871,6 +882,232 @@ def observe_scaled_batch(mj, only=None, full=True):
     return viol, n_eval, worst
 
 
+# ------------------------------------------------------------------ warm starts wider than the right-hand side
+# The exact optimum does not depend on the dtypes in which A, b and x0 are handed over.  Catalog cases flagged `mixed`
+# are replayed with every combination in which the guess is WIDER than b: a complex guess with a real (float64,
+# float32, integer) right-hand side of a complex operator; a half-integer float64 guess with an integer / float32
+# right-hand side of a real operator; and (wide-integer cases `warm32`) a float64 guess that needs 26 bits with a
+# float32 right-hand side.  A guess that is converted to the dtype of b loses its imaginary / fractional part / low bits.
+MIXED_COMBOS = {"complex_guess": (("c128", "f64", "c128"), ("c128", "f32", "c128"), ("c128", "i64", "c128")),
+                "half_guess": (("f64", "i64", "f64"), ("f64", "f32", "f64"))}
+_NPX = {"f64": np.float64, "f32": np.float32, "c128": np.complex128, "i64": np.int64}
+# warm32: relative to ||r0||, unit = eps32 * (cond + 1) + eps64 * (||A|| ||x0|| + ||b||) / ||r0|| (beta = ||r0|| is carried in
+# the dtype of b).  Measured excess: unchanged tree max 0.5; guess converted to the dtype of b (seeded change C13_E): >= 2e4.
+WARM_C = 16.0
+
+
+def _is_whole_sqrt(q):
+    """q = n/d (TLC rational record, real, >= 0): is sqrt(q) a whole number?"""
+    f = Fraction(q["n"][0], q["d"])
+    if f.denominator != 1:
+        return False
+    r = math.isqrt(f.numerator)
+    return r * r == f.numerator
+
+
+def observe_mixed(job, only=None):
+    """One catalog case flagged mixed: every dtype combination, gmres() and inv(A, GMRES(x0=...)) (column and 1-D
+    guess), every m.  Returns (violations, calls)."""
+    viol, n_eval = [], 0
+    kind = job["mixed"]
+    n = job["n"]
+    div = 2 if kind == "half_guess" else 1
+    Ac = _np(job["A"])
+    bq = _np(job["b"])[:, 0].real / div              # whole numbers
+    xq = _np(job["x0"])[:, 0] / div
+    for adt, bdt, xdt in MIXED_COMBOS[kind]:
+        A = Ac.astype(_NPX[adt]) if adt == "c128" else Ac.real.astype(_NPX[adt])
+        b = bq.astype(_NPX[bdt])
+        x0 = xq.astype(_NPX[xdt]) if xdt == "c128" else xq.real.astype(_NPX[xdt])
+        assert np.array_equal(b, bq) and np.array_equal(x0, xq)
+        for api, shape in (("gmres", "as_b"), ("inv", "column"), ("inv", "vector")):
+            for m in range(1, n + 3):
+                if only is not None and [adt, bdt, xdt, api, shape, m] != list(only):
+                    continue
+                rec = job["per_m"][str(m)]
+                exp = expected_of(rec)
+                exp = {"rho2": exp["rho2"] / div**2, "rho2_0": exp["rho2_0"] / div**2, "xs": exp["xs"] / div,
+                       "xg": None if exp["xg"] is None else exp["xg"] / div, "truncated": exp["truncated"]}
+                r0q = {"n": rec["rho2_0"]["n"], "d": rec["rho2_0"]["d"] * div**2}
+                at = dict(base_attrs(job, m, api, TOLS[1]), source="mixed_dtype", dtype=adt, a_dtype=adt, b_dtype=bdt,
+                          x0_dtype=xdt, x0_shape=shape, mixed=kind, beta_integral=_is_whole_sqrt(r0q))
+                case = f"{job['id']} A:{adt} b:{bdt} x0:{xdt} m={m} {api}" + (" x0(n,)" if shape == "vector" else "")
+                rp = {"mixed_job": dict(_core(job), mixed=kind, per_m={str(m): rec}), "only": [adt, bdt, xdt, api, shape, m]}
+                n_eval += 1
+                try:
+                    x, cols = call(api, A, b, x0, m, TOLS[1], shape)
+                except Exception as e:  # noqa: BLE001
+                    viol.append(Violation(PROP, "exception", case, dict(at, iterate="n/a", **common.exc_info(e)),
+                                          f"{type(e).__name__}: {str(e)[:120]}", replay=rp))
+                    continue
+                scale = max(exp["rho2_0"], float(np.linalg.norm(bq) ** 2), 1e-30)
+                found, it, _ = judge(x, A.astype(np.complex128), bq.astype(np.complex128), xq, exp, scale)
+                for clause, detail in found:
+                    viol.append(Violation(PROP, clause, case, dict(at, iterate=it), detail, replay=rp))
+                if cols > m + 1 and x.shape == b.shape:
+                    viol.append(Violation(PROP, "products", case, dict(at, iterate=it, products=cols),
+                                          f"{cols} products with A for one column and max_iters={m}", replay=rp))
+    return viol, n_eval
+
+
+def observe_warm(job, only=None):
+    """A wide-integer case whose float64 guess is not a float32 while b is one.  Returns (violations, calls, worst excess)."""
+    Aint, bint, x0int = wide_arrays(job)
+    n = job["n"]
+    viol, n_eval, worst = [], 0, 0.0
+    A = np.array(Aint, dtype=np.float64)
+    x0 = np.array(x0int, dtype=np.float64)
+    rho0 = math.sqrt(job["rho2_0"])
+    anorm = float(np.linalg.norm(A, 2))
+    bn = float(np.linalg.norm(np.array(bint, dtype=float)))
+    floor = float(np.finfo(np.float64).eps) * (anorm * float(np.linalg.norm(x0)) + bn) / rho0
+    for bdt in ("f32", "f64"):
+        b = np.array(bint, dtype=_NPX[bdt])
+        assert [int(t) for t in b] == list(bint) and [int(t) for t in x0] == list(x0int)
+        unit = float(np.finfo(_NPX[bdt]).eps) * (job["cond"] + 1.0) + floor
+        for api, shape in (("gmres", "as_b"), ("inv", "column"), ("inv", "vector")):
+            for m in range(1, n + 3):
+                if only is not None and [bdt, api, shape, m] != list(only):
+                    continue
+                rho_rel = wide_expected(job["per_m"][str(m)])[0] / rho0
+                at = dict(wide_attrs(job, "f64", m, api, 1e-14), source="mixed_dtype", a_dtype="f64", b_dtype=bdt, x0_dtype="f64",
+                          x0_shape=shape, mixed="warm32", beta_integral=_is_whole_sqrt({"n": [job["rho2_0"], 0], "d": 1}))
+                case = f"{job['id']} A:f64 b:{bdt} x0:f64 m={m} {api}" + (" x0(n,)" if shape == "vector" else "")
+                rp = {"warm_job": dict(_wide_core(job), warm=True, per_m={str(m): job["per_m"][str(m)]}), "only": [bdt, api, shape, m]}
+                n_eval += 1
+                try:
+                    x, cols = call(api, A, b, x0, m, 1e-14, shape)
+                except Exception as e:  # noqa: BLE001
+                    viol.append(Violation(PROP, "exception", case, dict(at, iterate="n/a", **common.exc_info(e)),
+                                          f"{type(e).__name__}: {str(e)[:120]}", replay=rp))
+                    continue
+                if x.shape != (n, ) or not np.all(np.isfinite(x)):
+                    viol.append(Violation(PROP, "shape" if x.shape != (n, ) else "nonfinite", case, dict(at, iterate="n/a"),
+                                          f"solution shape {x.shape} / non-finite", replay=rp))
+                    continue
+                rel = exact_residual(Aint, bint, x) / rho0
+                ratio = (rel - rho_rel) / unit
+                worst = max(worst, ratio)
+                if ratio > WARM_C:
+                    viol.append(Violation(PROP, "residual", case, dict(at, iterate="other", excess=_excess_bucket(ratio)),
+                                          f"||b - A x|| / ||r0|| = {rel:.9g}, exact optimum {rho_rel:.9g} (||r0|| = {rho0:.4g}, ||x0|| = "
+                                          f"{np.linalg.norm(x0):.3g}): excess {ratio:.3g} units, allowed {WARM_C:g}", replay=rp))
+                if rel > 1.0 + WARM_C * unit:
+                    viol.append(Violation(PROP, "initial_residual", case, dict(at, iterate="other"),
+                                          f"||b - A x|| / ||b - A x0|| = {rel:.9g} > 1", replay=rp))
+                if cols > m + 1:
+                    viol.append(Violation(PROP, "products", case, dict(at, iterate="n/a", products=cols),
+                                          f"{cols} products with A for one column and max_iters={m}", replay=rp))
+    return viol, n_eval, worst
+
+
+# ------------------------------------------------------------------ declared (SelfAdjoint / PSD) operators, numeric family
+# Symmetric / Hermitian matrices with prescribed wide spectra (definite and indefinite), n = 20 .. 60, run UNDECLARED and
+# DECLARED (cola.SelfAdjoint, cola.PSD for the definite ones) at m in {n/2, n, n+3}.  The annotation is a promise about
+# the operator, not another problem: the declared run must meet the same bound as the undeclared one,
+#     ||b - A x|| <= opt_m + DECL_C * eps * cond(A) * ||r0||      (opt_m = 0 for m >= n; dense oracle over an orthonormal
+#                                                                  Krylov basis built in the harness for m = n/2)
+# and return the same iterate: | ||b - A x_decl|| - ||b - A x_undecl|| | <= DECL_C * eps * cond(A) * ||r0||.
+# Measured, in units of eps*cond*||r0||: unchanged tree <= 0.9 for either run and exactly 0 between them (the annotation
+# is not used by the solver); short Gram-Schmidt recurrence for annotated operators (seeded change C13_F): 1e3 .. 1e12.
+DECL_C = 16.0
+
+
+def declared_specs(tier, seed):
+    plan = [(20, "sym_indef", 1e3), (40, "spd", 1e4), (60, "herm_indef", 1e3), (40, "sym_indef", 1e5), (30, "herm_def", 1e4),
+            (60, "spd", 1e3)]
+    reps = 1 if tier == "quick" else 4
+    specs, i = [], 0
+    for rep in range(reps):
+        for n, kind, cond in plan:
+            i += 1
+            specs.append({"n": n, "kind": kind, "cond": cond, "k": 2 if i % 2 else 1, "x0": "rand" if i % 3 == 0 else "0",
+                          "seed": (seed * 1000003 + 15485863 * i + n) % (2**31 - 1)})
+    return specs
+
+
+def make_declared(spec):
+    rng = np.random.RandomState(spec["seed"])
+    n, kind = spec["n"], spec["kind"]
+    lam = np.logspace(0, -np.log10(spec["cond"]), n)
+    if kind.endswith("indef"):
+        lam = lam * np.where(np.arange(n) % 2 == 0, 1.0, -1.0)
+    if kind.startswith("herm"):
+        Qm, _ = np.linalg.qr(rng.randn(n, n) + 1j * rng.randn(n, n))
+    else:
+        Qm, _ = np.linalg.qr(rng.randn(n, n))
+    A = (Qm * lam) @ Qm.conj().T
+    A = (A + A.conj().T) / 2
+    k = spec["k"]
+    B = rng.randn(n, k) + (1j * rng.randn(n, k) if np.iscomplexobj(A) else 0)
+    X0 = np.zeros_like(B) if spec["x0"] == "0" else (rng.randn(n, k) + (1j * rng.randn(n, k) if np.iscomplexobj(A) else 0))
+    return A, B.astype(A.dtype), X0.astype(A.dtype)
+
+
+def observe_declared(spec):
+    """Returns (violations, calls, largest excess of any run, largest declared-vs-undeclared difference)."""
+    A, B, X0 = make_declared(spec)
+    n, k = B.shape
+    cond = float(np.linalg.cond(A))
+    eps = float(np.finfo(np.float64).eps)
+    tol = 1e-14
+    viol, n_eval, worst, worst_diff = [], 0, 0.0, 0.0
+    R0 = B - A @ X0
+    r0n = [float(np.linalg.norm(R0[:, j])) for j in range(k)]
+    bases = [arnoldi_basis(A, R0[:, j], n) for j in range(k)]
+    decls = ["SelfAdjoint"] + (["PSD"] if spec["kind"] in ("spd", "herm_def") else [])
+    for mi, m in enumerate((n // 2, n, n + 3)):
+        api = ("gmres", "inv")[mi % 2]
+        opt = [0.0 if m >= n else float(krylov_oracle(bases[j], r0n[j], m)[0]) for j in range(k)]
+        at0 = {"source": "declared", "family": spec["kind"], "n": n, "dtype": "c128" if np.iscomplexobj(A) else "f64", "m": m,
+               "api": api, "tol": tol, "columns": k, "x0": spec["x0"],
+               "regime": "padded" if m > n else ("exact" if m == n else "truncated"), "cond_decade": int(round(math.log10(spec["cond"])))}
+        res_by = {}
+        for decl in [None] + decls:
+            n_eval += 1
+            at = dict(at0, declared=decl or "none")
+            case = f"declared/{spec['kind']} n={n} cond={spec['cond']:g} k={k} x0={spec['x0']} seed={spec['seed']} m={m} {api} " \
+                   f"{'declared ' + decl if decl else 'undeclared'}"
+            rp = {"declared": spec, "m": m}
+            try:
+                b_arg, x0_arg = (B[:, 0], X0[:, 0]) if k == 1 else (B, X0)
+                if api == "inv" and k == 1:
+                    x0_arg = x0_arg[:, None]
+                if spec["x0"] == "0":
+                    x0_arg = None
+                X, used = call(api, A, b_arg, x0_arg, m, tol, declared=decl)
+            except Exception as e:  # noqa: BLE001
+                viol.append(Violation(PROP, "exception", case, dict(at, iterate="n/a", **common.exc_info(e)),
+                                      f"{type(e).__name__}: {str(e)[:120]}", replay=rp))
+                continue
+            X = np.asarray(X).reshape(n, k)
+            if not np.all(np.isfinite(X)):
+                viol.append(Violation(PROP, "nonfinite", case, dict(at, iterate="nonfinite"), "solution contains NaN/Inf", replay=rp))
+                continue
+            if used > k * (m + 1):
+                viol.append(Violation(PROP, "products", case, dict(at, products=used),
+                                      f"{used} column products with A for {k} columns and max_iters={m}", replay=rp))
+            res = [float(np.linalg.norm(B[:, j] - A @ X[:, j])) for j in range(k)]
+            res_by[decl] = res
+            for j in range(k):
+                unit = eps * cond * r0n[j]
+                ratio = (res[j] - opt[j]) / unit
+                worst = max(worst, ratio)
+                if ratio > DECL_C:
+                    viol.append(Violation(PROP, "residual", case, dict(at, column=j, iterate="other", converged=bool(m >= n),
+                                                                       excess=_excess_bucket(ratio)),
+                                          f"||b - A x|| = {res[j]:.6g}, optimum over the Krylov space {opt[j]:.6g}: excess {ratio:.3g} * "
+                                          f"eps*cond(A)*||r0|| (cond = {cond:.3g}, ||r0|| = {r0n[j]:.4g}), allowed {DECL_C:g}", replay=rp))
+                if decl is not None and None in res_by:
+                    d = abs(res[j] - res_by[None][j]) / unit
+                    worst_diff = max(worst_diff, d)
+                    if d > DECL_C:
+                        viol.append(Violation(PROP, "declared_differs", case, dict(at, column=j, iterate="other", excess=_excess_bucket(d)),
+                                              f"residual {res[j]:.6g} of the declared operator, {res_by[None][j]:.6g} of the same matrix "
+                                              f"undeclared: difference {d:.3g} * eps*cond(A)*||r0||, allowed {DECL_C:g}", replay=rp))
+    return viol, n_eval, worst, worst_diff
+
+
 # ------------------------------------------------------------------ ill-conditioned numeric family
 def illcond_specs(tier, seed):
     """(n, cond, dtype): prescribed singular values 1 .. 1/cond, random orthogonal factors; m >= n."""
@@ -1010,6 +1247,7 @@ def make_jobs(cases, wcases, out):
         jobs.append({"id": c["id"], "mat": c["mat"], "A": lsqfam.jmat(c["A"]), "b": lsqfam.jmat(c["b"]),
                      "x0": lsqfam.jmat(c["x0"]), "n": c["n"], "kdim": c["kdim"], "complex": c["complex"],
                      "normal": c["normal"], "x0name": c["x0name"], "per_m": per_m, "hom": bool(c.get("hom")),
+                     "mixed": c.get("mixed"),
                      "cond": float(np.linalg.cond(An)), "anorm": float(np.linalg.norm(An, 2))})
     wjobs = []
     for c in wcases:
@@ -1019,7 +1257,9 @@ def make_jobs(cases, wcases, out):
         wjobs.append({"id": c["id"], "mat": c["mat"], "template": c["template"], "scale": c["scale"], "A": lsqfam.jmat(c["A"]),
                       "b": lsqfam.jmat(c["b"]), "x0": lsqfam.jmat(c["x0"]), "n": c["n"], "kdim": c["kdim"],
                       "normal": c["normal"], "x0name": c["x0name"], "cond": float(np.linalg.cond(A)),
-                      "rho2_0": lsqfam.wide_decode(out[(c["id"], 0)]["r0"]), "per_m": per_m})
+                      "rho2_0": lsqfam.wide_decode(out[(c["id"], 0)]["r0"]), "per_m": per_m, "warm": bool(c.get("warm")),
+                      "symmetric": bool(np.array_equal(A, A.T)),
+                      "definite": bool(np.array_equal(A, A.T) and np.linalg.eigvalsh(A).min() > 0)})
     return jobs, wjobs
 
 
@@ -1028,7 +1268,7 @@ def multi_jobs(jobs):
     others) and a `mixed` batch (all columns, so some Krylov spaces are exhausted while others continue)."""
     by = {}
     for j in jobs:
-        if j["kdim"] >= 1:
+        if j["kdim"] >= 1 and not j.get("mixed"):
             by.setdefault(j["mat"], []).append(j)
     out = []
     for k, v in by.items():
@@ -1053,6 +1293,12 @@ def _task(arg):
         r = observe_wide(x)
     elif kind == "wide_multi":
         r = observe_wide_multi(x)
+    elif kind == "mixed":
+        r = observe_mixed(x)
+    elif kind == "warm":
+        r = observe_warm(x)
+    elif kind == "declared":
+        r = observe_declared(x)
     elif kind == "rhs":
         r = observe_scaled_rhs(x[0], full=x[1])
     elif kind == "rhs_batch":
@@ -1081,7 +1327,9 @@ def run(tier):
     viol, cpu = [], {}
     with ProcessPoolExecutor(max_workers=16) as ex:
         # heaviest first (n = 150 systems take seconds)
-        numeric = sorted([("random", (s, tier)) for s in specs], key=lambda a: -a[1][0]["n"]) + [("illcond", s) for s in ispecs]
+        dspecs = declared_specs(tier, common.seed())
+        numeric = (sorted([("random", (s, tier)) for s in specs], key=lambda a: -a[1][0]["n"])
+                   + sorted([("declared", s) for s in dspecs], key=lambda a: -a[1]["n"]) + [("illcond", s) for s in ispecs])
         futs = [ex.submit(_task, a) for a in numeric]
         t1 = time.time()
         cases, dropped = lsqfam.gmres_cases(tier)
@@ -1102,16 +1350,21 @@ def run(tier):
         t1 = time.time()
         hjobs = [j for j in jobs if j["hom"]]
         hb = rhs_batch_jobs(jobs)
-        futs += [ex.submit(_task, a) for a in ([("multi", j) for j in mjobs] + [("case", j) for j in jobs]
-                                               + [("wide", j) for j in wjobs] + [("wide_multi", j) for j in wm]
+        xjobs = [j for j in jobs if j.get("mixed")]          # replayed with mixed dtypes only
+        warm = [j for j in wjobs if j["warm"]]
+        futs += [ex.submit(_task, a) for a in ([("multi", j) for j in mjobs] + [("case", j) for j in jobs if not j.get("mixed")]
+                                               + [("wide", j) for j in wjobs if not j["warm"]] + [("wide_multi", j) for j in wm]
+                                               + [("mixed", j) for j in xjobs] + [("warm", j) for j in warm]
                                                + [("rhs", (j, tier != "quick")) for j in hjobs]
                                                + [("rhs_batch", (j, tier != "quick")) for j in hb])]
         results = [f.result() for f in futs]
         phase["replay_after_tlc"] = round(time.time() - t1, 1)
-    n_eval = n_multi = n_wide = n_rand = n_skip = n_ill = n_rhs = 0
+    n_eval = n_multi = n_wide = n_rand = n_skip = n_ill = n_rhs = n_mixed = n_decl = 0
     worst_scaled, worst_ill, worst_rhs = {}, {}, {}
+    worst_warm = worst_decl = worst_decl_diff = 0.0
     # fixed reporting order: catalog, multi-column, scaled catalog, scaled right-hand sides, random systems, ill-conditioned
-    order = {"case": 0, "multi": 1, "wide": 2, "wide_multi": 3, "rhs": 4, "rhs_batch": 5, "random": 6, "illcond": 7}
+    order = {"case": 0, "multi": 1, "wide": 2, "wide_multi": 3, "rhs": 4, "rhs_batch": 5, "mixed": 6, "warm": 7, "random": 8,
+             "illcond": 9, "declared": 10}
     for kind, r, secs in sorted(results, key=lambda x: order[x[0]]):
         cpu[kind] = cpu.get(kind, 0.0) + secs
         viol += r[0]
@@ -1127,6 +1380,15 @@ def run(tier):
             n_rhs += r[1]
             for dt, w in r[2].items():
                 worst_rhs[dt] = max(worst_rhs.get(dt, 0.0), w)
+        elif kind == "mixed":
+            n_mixed += r[1]
+        elif kind == "warm":
+            n_mixed += r[1]
+            worst_warm = max(worst_warm, r[2])
+        elif kind == "declared":
+            n_decl += r[1]
+            worst_decl = max(worst_decl, r[2])
+            worst_decl_diff = max(worst_decl_diff, r[3])
         elif kind == "random":
             n_rand += r[1]
             n_skip += r[2]
@@ -1142,7 +1404,7 @@ def run(tier):
     cov = {
         "states": stats["states"], "transitions": stats["transitions"],
         "traces_validated_against_impl": len(jobs) + len(wjobs),
-        "evaluations": n_eval + n_multi + n_rand + n_wide + n_ill + n_rhs, "catalog_calls": n_eval, "multi_column_calls": n_multi,
+        "evaluations": n_eval + n_multi + n_rand + n_wide + n_ill + n_rhs + n_mixed + n_decl, "catalog_calls": n_eval, "multi_column_calls": n_multi,
         "random_system_calls": n_rand, "random_systems": len(specs), "random_columns_skipped_illconditioned": n_skip,
         "scaled_catalog_calls": n_wide, "scaled_catalog_systems": len(wjobs), "scaled_multi_column_batches": len(wm),
         "scaled_catalog_matrices": len({j["mat"] for j in wjobs}),
@@ -1154,6 +1416,13 @@ def run(tier):
         "scaled_rhs_scales": {k: [a for a, _ in v] for k, v in RHS_SCALES.items()}, "tiny_residual_scales": [a for a, _ in SHIFT_SCALES],
         "scaled_rhs_largest_excess": {k: round(v, 3) for k, v in sorted(worst_rhs.items())},
         "scaled_rhs_allowed": dict(RHS_C, shift=SHIFT_C), "tlc_scale_shift_cases": sum(1 for c in cases if c.get("hom")),
+        "mixed_dtype_calls": n_mixed, "mixed_dtype_systems": len(xjobs), "warm32_systems": len(warm),
+        "mixed_dtype_combinations": {k: ["A:%s b:%s x0:%s" % t for t in v] for k, v in MIXED_COMBOS.items()},
+        "warm32_largest_excess": round(worst_warm, 3), "warm32_allowed": WARM_C,
+        "declared_operator_calls": n_decl, "declared_operator_systems": len(dspecs),
+        "declared_largest_excess_over_eps_cond": round(worst_decl, 3),
+        "declared_vs_undeclared_largest_difference": round(worst_decl_diff, 3), "declared_allowed": DECL_C,
+        "scaled_declared_systems": sum(1 for j in wjobs if j["symmetric"] and not j["warm"]),
         "illcond_system_calls": n_ill, "illcond_systems": len(ispecs),
         "illcond_largest_residual_over_eps_cond": {k: round(v, 3) for k, v in sorted(worst_ill.items())},
         "illcond_allowed": ILLCOND_C,
@@ -1175,7 +1444,7 @@ def replay(path):
     r = v["replay"]
     if "wide_job" in r:
         ms = {r["m"] - 1, r["m"]} if r.get("monotone") else {r["m"]}
-        res, _, _ = observe_wide(r["wide_job"], only=(r["dtype"], r["api"], ms - {0}))
+        res, _, _ = observe_wide(r["wide_job"], only=(r["dtype"], r["api"], ms - {0}, r.get("declared")))
         res = [x for x in res if x.attrs.get("m") == r["m"] and (x.clause == "monotone") == bool(r.get("monotone"))]
     elif r.get("monotone") and "job" in r:
         job = dict(r["job"])
@@ -1193,6 +1462,13 @@ def replay(path):
         res, _ = single_run(job, r["m"], r["api"], r["tol"], r.get("x0_shape", "column"))
     elif "random" in r:
         res, _, _ = observe_random((r["random"], r.get("tier", "quick")))
+        res = [x for x in res if x.attrs.get("m") == r["m"]]
+    elif "mixed_job" in r:
+        res, _ = observe_mixed(dict(r["mixed_job"]), only=r["only"])
+    elif "warm_job" in r:
+        res, _, _ = observe_warm(r["warm_job"], only=r["only"])
+    elif "declared" in r and "wide_job" not in r:
+        res, _, _, _ = observe_declared(r["declared"])
         res = [x for x in res if x.attrs.get("m") == r["m"]]
     elif "rhs_job" in r:
         ms = {r["m"] - 1, r["m"]} if r.get("monotone") else {r["m"]}
